@@ -36,6 +36,7 @@ NewRun(b) == [active |-> TRUE, b |-> b, cons |-> 0, acc |-> 0, eof |-> FALSE,
               intr |-> {},        \* sides on which an Interrupted fault was injected
               owed |-> {},        \* kinds of call that were interrupted and not yet re-issued
               wfault |-> FALSE,   \* any fault on the write side (write or flush), hard or transient
+              maxheap |-> 0,      \* largest heap peak seen at any event of this run
               ended |-> FALSE]
 
 Init == l = 1 /\ m = Idle /\ viol = {}
@@ -97,7 +98,8 @@ IOEvent ==
                   !.intr = IF IsIntr(e) THEN m.intr \cup {Side(e.ev)} ELSE m.intr,
                   !.owed = IF IsIntr(e) THEN m.owed \cup {e.ev}
                            ELSE IF IsHard(e) THEN m.owed ELSE m.owed \ {e.ev},
-                  !.wfault = (m.wfault \/ (e.ev # "read" /\ (IsHard(e) \/ IsIntr(e))))]
+                  !.wfault = (m.wfault \/ (e.ev # "read" /\ (IsHard(e) \/ IsIntr(e)))),
+                  !.maxheap = IF e.heap > m.maxheap THEN e.heap ELSE m.maxheap]
         /\ viol' = viol \cup EventChecks(e, m)
   /\ l' = l + 1
 
@@ -167,9 +169,19 @@ DecEnd(e, mm) ==
            THEN Flag((e.acc \in Boundaries(F(b), b.H)) = e.boundary, "TOOL_projection_boundary")
            ELSE {})
 
+\* C11, sharper than the constant bound: where the harness also ran the same operation on a three-chunk
+\* input (heap_ref >= 0), the peak heap of this run must not exceed that by more than 1 KiB, so even a
+\* few bytes kept per chunk show on an input of thousands of chunks.
+HeapIndependentOfLength(mm) ==
+  IF "heap_ref" \in DOMAIN mm.b /\ mm.b.heap_ref >= 0
+  THEN Flag(mm.maxheap <= mm.b.heap_ref + 1024,
+            IF mm.b.op = "enc" THEN "E5_heap_grows_with_input_length" ELSE "D8_heap_grows_with_input_length")
+  ELSE {}
+
 End ==
   /\ l <= N /\ Rec[l].ev = "end" /\ m.active
   /\ viol' = viol \cup (IF m.b.op = "enc" THEN EncEnd(Rec[l], m) ELSE DecEnd(Rec[l], m))
+                  \cup HeapIndependentOfLength(m)
                   \cup Flag(Rec[l].cons = m.cons /\ Rec[l].acc = m.acc, "TOOL_counts")
   /\ m' = [m EXCEPT !.ended = TRUE]
   /\ l' = l + 1
